@@ -50,7 +50,7 @@ pub(crate) mod b {
         // in the sibling, in the circle, outside everything
         let places: [(i32, i32, &str); 9] = [(8, 4, "core"), (10, 10, "inner"), (47, 22, "outer"), (72, 3, "sibling"), (104, 4, "circle"), (130, 40, "none"),
             (34, 14, "ring"), (152, 12, "cbox"), (140, 14, "bigcirc")];
-        let contents = ["{t}", "{a,b1}", "{_x}", "hello", "{bad", "{a b}"];
+        let contents = ["{t}", "{a,b1}", "{_x}", "hello", "{bad", "{a b}", "{t}x", "{a}{b}"];
         // precondition established by the caller (endorse_to_fragment_spans): shapes come before texts, and an
         // enclosing shape before the shapes inside it (spans are built in row-major order of their first cell)
         let orders: [[usize; 8]; 4] = [[0, 1, 4, 5, 2, 3, 6, 7], [6, 2, 3, 0, 1, 5, 4, 7], [0, 2, 1, 3, 4, 6, 7, 5], [3, 6, 7, 0, 2, 1, 5, 4]];
